@@ -1180,6 +1180,9 @@ func findInjectorBuild(info *types.Info, fn *ast.FuncDecl) (*ast.CallExpr, error
 		case *ast.ReturnStmt:
 			// Allow the function to end in a return.
 			if numStatements == 0 {
+				if callsWireBuild(info, fn.Body) {
+					return nil, errInvalidInjector
+				}
 				return nil, nil
 			}
 		default:
@@ -1188,12 +1191,35 @@ func findInjectorBuild(info *types.Info, fn *ast.FuncDecl) (*ast.CallExpr, error
 
 	}
 	if wireBuildCall == nil {
+		if callsWireBuild(info, fn.Body) {
+			// wire.Build is called, but not as the statement that makes the
+			// function an injector (return wire.Build(...), _ = wire.Build(...),
+			// a call inside a block, ...).
+			return nil, errInvalidInjector
+		}
 		return nil, nil
 	}
 	if invalid {
-		return nil, errors.New("a call to wire.Build indicates that this function is an injector, but injectors must consist of only the wire.Build call and an optional return")
+		return nil, errInvalidInjector
 	}
 	return wireBuildCall, nil
+}
+
+var errInvalidInjector = errors.New("a call to wire.Build indicates that this function is an injector, but injectors must consist of only the wire.Build call and an optional return")
+
+// callsWireBuild reports whether wire.Build is called anywhere in body.
+func callsWireBuild(info *types.Info, body *ast.BlockStmt) bool {
+	found := false
+	ast.Inspect(body, func(n ast.Node) bool {
+		if call, ok := n.(*ast.CallExpr); ok && !found {
+			obj := qualifiedIdentObject(info, astutil.Unparen(call.Fun))
+			if obj != nil && obj.Pkg() != nil && isWireImport(obj.Pkg().Path()) && obj.Name() == "Build" {
+				found = true
+			}
+		}
+		return !found
+	})
+	return found
 }
 
 func isWireImport(path string) bool {
